@@ -852,7 +852,7 @@ Proof.
   pose proof (raw_job_nth _ _ _ _ _ Hraw) as (j & rw & Hf & Hrw & Hmet & Hel & Hir & Hab).
   destruct (repaired_fields _ _ _ Hrep) as (Hlv & _ & Hlen).
   split; [|split; [|split; [|split; [|split]]]].
-  - exists j, rw. rewrite Hl. repeat split; try congruence.
+  - exists j, rw. rewrite Hl. split; [exact Hf|]. split; [exact Hrw|]. split; [congruence|]. split; [exact Hir|exact Hab].
   - rewrite Hlv. apply raw_job_levels.
   - unfold seed_ok in Hs. rewrite Ht in Hs. exact Hs.
   - exact Hts.
@@ -1183,12 +1183,15 @@ Proof.
   - rewrite H1. destruct seed; simpl; lia.
 Qed.
 
+Lemma filter_length_le' {A} (f : A -> bool) l : (length (filter f l) <= length l)%nat.
+Proof. induction l as [|x l IH]; simpl; [lia|]. destruct (f x); simpl; lia. Qed.
+
 Lemma job_results_length c seed rp rs : job_results S_ tbl c seed rp = Ok rs -> (length rs <= max_curve)%nat.
 Proof.
   intro H. apply job_results_spec in H as [_ H]. apply repaired_fields in H as (_ & _ & ->).
   unfold raw_job, table_results. rewrite map_length.
-  pose proof (filter_length_le (above (resume_level rp)) (filter (in_range c) (with_levels (fidelities S_) (curve_of c seed)))).
-  pose proof (filter_length_le (in_range c) (with_levels (fidelities S_) (curve_of c seed))).
+  pose proof (filter_length_le' (above (resume_level rp)) (filter (in_range c) (with_levels (fidelities S_) (curve_of c seed)))).
+  pose proof (filter_length_le' (in_range c) (with_levels (fidelities S_) (curve_of c seed))).
   pose proof (with_levels_length (curve_of c seed) (fidelities S_)).
   pose proof (curve_of_le c seed). lia.
 Qed.
